@@ -82,6 +82,10 @@ def one_case(run, cfg):
                 fail(f"optimisation pass {bad[0]} of {len(ck)} was started "
                      f"from {ck[bad[0]]['cp_in']!r}, not k*cp0 = {cp0 * k!r}",
                      "C11 (initial guess in measured units for every pass)")
+        if len(ck) != len(c1):
+            fail(f"{len(ck)} optimisation passes with k = {k}, {len(c1)} with "
+                 "k = 1", "C11 (initial guess in measured units for every "
+                 "pass)")
         tol = 1e-6 if not noise else 5e-3
         pfk, pf1 = fk["params_fitted"], f1["params_fitted"]
         if cfg.get("fix_cp"):
